@@ -370,6 +370,8 @@ func c05Scenarios(tier string) []Scenario {
 			}
 		}
 	}
+	// a request held on a fid across the clunk and re-binding of its number: what follows obeys the rules and is forwarded
+	out = append(out, heldAcrossClunkScenario("C05"))
 	out = append(out, c05ArgsStable(64, false), c05ArgsStable(64, true), c05ArgsStable(256, true))
 	P := 2
 	if tier == "thorough" {
